@@ -17,8 +17,8 @@ import (
 // commas), optionally placed inside one enclosing array or object, together
 // with a parse.Config.
 type FlagCase struct {
-	Feature string   `json:"feature"` // array | object | dquote | squote | comma
-	Items   []string `json:"items"`   // array/comma: elements; object: key, value, key, value...; quotes: fragments of the content
+	Feature string   `json:"feature"`        // array | object | dquote | squote | comma
+	Items   []string `json:"items"`          // array/comma: elements; object: key, value, key, value...; quotes: fragments of the content
 	Seps    []string `json:"seps,omitempty"` // quotes: separators between the fragments ("," or an inert one)
 	Pad     []string `json:"pad,omitempty"`  // whitespace used round-robin at every token gap
 	Wrap    string   `json:"wrap,omitempty"` // "" | array | object
